@@ -126,15 +126,17 @@ Definition proposer (height round : Z) (prev : list N) (ns : list node) : option
 
 Definition node_eqb (x y : node) : bool := addr_eqb (fst x) (fst y) && N.eqb (snd x) (snd y).
 
-Definition mknodes (l : list (string * N)) : list node := map (fun p => (unhex (fst p), snd p)) l.
+(* nodes of a case: addresses in hex; the public-key id is not part of the correspondence (the harness
+   checks on the Go side that the selected node object is the suffrage's node with that address) *)
+Definition mknodes (l : list string) : list node := map (fun a => (unhex a, 0%N)) l.
 
-(* case: (flow?, height, round, prev hash hex, listed nodes (addr hex, key id), failing addrs hex,
-          observed nodes).
+(* case: (flow?, height, round, prev hash hex, listed node addresses (hex), failing addrs hex,
+          observed node addresses).
    flow = true : the whole BaseProposalSelector.Select run; observed = the nodes asked for a proposal,
                  in order (results of ProposerSelectFunc; the single node of a one-node suffrage).
    flow = false: BlockBasedProposerSelector.Select called directly on the list as given;
                  observed = [selected]. *)
-Definition case := (bool * Z * Z * string * list (string * N) * list string * list (string * N))%type.
+Definition case := (bool * Z * Z * string * list string * list string * list string)%type.
 
 Definition check (c : case) : bool :=
   let '(flow, h, r, prev, ns, failing, obs) := c in
